@@ -71,4 +71,5 @@ def run_case(case):
     return out
 
 
-main(lambda payload: [run_case(c) for c in payload])
+if __name__ == '__main__':
+    main(lambda payload: [run_case(c) for c in payload])
